@@ -310,7 +310,7 @@ class C02(Check):
             'names) x padding length (12 values incl. 0, 1, 63..65, page alignment) x record sequence (<=2 (quick) / <=3 '
             '(thorough) over 10 record kinds incl. records beginning with 1,2,7,8 zero bytes and, in '
             'non-first position, an all-zero record and records beginning with the version-2 / version-3 magic) x both entry points; plus all sequences of <=3 parses over 4 dumps through the same table '
-            'objects in 4 reuse modes (also after a parse that RAISED on a truncated dump), and with all generators created first and consumed afterwards (same parser via parse(), via parse_v2() directly, same facade); plus two parses ALIVE AT ONCE (3x3 dump pairs), their generators advanced in every interleaving; plus dumps of 2^k-1, 2^k, 2^k+1 records for k = 6..13. Oracle: events == independent decode of each record; tables == file map (last wins), '
+            'objects in 4 reuse modes (also after a parse that RAISED on a truncated dump), and with all generators created first and consumed afterwards (same parser via parse(), via parse_v2() directly, same facade); plus two parses ALIVE AT ONCE (3x3 dump pairs), their generators advanced in every interleaving; plus dumps of 2^k-1, 2^k, 2^k+1 records for k = 6..13; plus every combination of the header scalars (pointer-width flag {0,1,2,2^32-1} x tick frequency {0, 24 MHz, 2^64-1} x time of day {zeros, all-ones}) over 1..4 records whose timestamps use their top byte. Oracle: events == independent decode of each record; tables == file map (last wins), '
             'identity preserved, nothing left over. non-trivial = dump has >=1 record and >=1 map entry (or history length >=2). '
             'states = distinct table contents after a parse; transitions = parse calls.')
     assumptions = ('a first record of 64 zero bytes is indistinguishable from padding and is not generated first',
@@ -373,6 +373,24 @@ class C02(Check):
                     acc.case(nontrivial=True, transitions=4, outcome=h64(('order', perm)))
                     if got != [ref_decode(r) for r in recs] or err:
                         acc.violation('v2-events-not-in-file-order', {'kind': 'long', 'perm': list(perm), 'entry': entry}, {'err': err})
+            # the header's scalar fields (pointer-width flag, tick frequency, time of day) say nothing about the records: every
+            # combination x records whose timestamp uses its top byte
+            hrecs = [RECORDS['hi'], rec((1 << 64) - 1, (1, 2, 3, 4), 9, 0x040c0005), rec(0xff00000000000007, (0, 0, 0, 0), 1, 0x01400000, cpuid=3), rec(7, (5, 6, 7, 8), 2, 0x040c0006)]
+            for is64 in (0, 1, 2, 0xffffffff):
+                for tick in (0, 24000000, (1 << 64) - 1):
+                    for tod in (bytes(12), b'\xff' * 12):
+                        for k in range(1, len(hrecs) + 1):
+                            for tm in ((), (ENTRIES[0],)):
+                                blob = v2(list(tm), 0, hrecs[:k], is_64bit=is64, tick=tick, tod=tod)
+                                for entry in ('kd', 'facade'):
+                                    if entry == 'kd':
+                                        got, err, _ = parse_kd(blob, {}, {})
+                                    else:
+                                        got, err = parse_facade(blob, PyKdebugParser())
+                                    acc.case(nontrivial=True, transitions=k, outcome=h64(('hdr', is64, tick, tod, k)))
+                                    if got != [ref_decode(r) for r in hrecs[:k]] or err:
+                                        acc.violation('v2-events-depend-on-header-scalars', {'kind': 'long', 'is_64bit': is64, 'tick': tick, 'tod': tod.hex(), 'n': k, 'threads': len(tm), 'entry': entry},
+                                                      {'err': err, 'got_n': len(got or [])})
             for n in sorted({2 ** k + d for k in range(6, 14) for d in (-1, 0, 1)} | {1500}):
                 recs = [rec(1000 + i, (i, i * 3, 7, 9), 1 + i % 3, 0x040c0004 | (i % 4)) for i in range(n)]
                 for pad in (0, 64):
